@@ -191,7 +191,7 @@ EXTRA_TEXT = {
     "C09": "Scale inputs include exact ties of the multiplier rounding (doubles whose significand * 2^31 is m + 1/2).",
     "C10": "For binary elementwise operators each operand's input region must be the OFM region moved by that operand's own read offset.",
     "C11": "min / max vectors of quantisation tables are part of the compared tensor signature.",
-    "C12": "Variable (persistent state) tensors are live for the whole inference.",
+    "C12": "Variable (persistent state) tensors are live for the whole inference (an Ethos-U operator may update its own state operands); LSTM networks included.",
     "C13": "Appended cases: the compiler's own output compiled again, grouped convolutions, UNIDIRECTIONAL_SEQUENCE_LSTM (findings keyed with the operator), "
            "rank-changing memory-only operators, EXP / SQUARED_DIFFERENCE.",
     "C14": "Histories include models whose interface lists repeat a tensor and models in which several tensors carry the same name.",
